@@ -82,7 +82,7 @@ class C25(Property):
     props_files = ["SFV/Props/C25.lean"]
     drivers = ["Drivers/C25.lean"]
     translators = [cmdtmpl.generate]
-    quick_budget_s = 480
+    quick_budget_s = 900
     rule = ("(1) render: random workdir/environment/command through the real _build_shell_command, create_command and "
             "CommandTemplateMap.get_command vs the Lean renderers assembled from the generated template pieces; (2) lexer: random "
             "lines over quotes, backslash, $, backtick, operators, blanks, unicode read by the Lean sh lexer and by /bin/sh (argv printed "
@@ -369,7 +369,7 @@ class C25(Property):
             except WorkflowExecutionException as e:
                 return ("exc", str(e)), sh._reader.i
 
-        real, used = run_watchdog(go, 30)
+        real, used = run_watchdog(go, 120)
         dec = codecs.getincrementaldecoder("utf-8")(errors="replace")
         dchunks = [dec.decode(c, final=False) for c in chunks]
         return real, used, chunks, dchunks
@@ -455,7 +455,7 @@ class C25(Property):
                 await conn.undeploy(False)
 
         try:
-            run_watchdog(run_all, 60)
+            run_watchdog(run_all, 300)
         except Hang as e:
             return {"hang": str(e), "results": results, "counts": counts}
         return {"results": results, "counts": counts}
